@@ -11,6 +11,8 @@
 (*  ext    goJSONSchema extension objects (type + imports, identifier, nillable)        *)
 (*         on a property, on array items, on an anyOf branch member, on a definition     *)
 (*  pat    patterns containing a double quote, a backslash class, a backtick              *)
+(*  udef   definitions of 21 kinds that nothing (or only an interface{} referrer)          *)
+(*         refers to, or that a property / two properties / array items refer to           *)
 (***************************************************************************)
 EXTENDS JV, Json, SequencesExt
 
@@ -61,15 +63,55 @@ PatUnit(p, pos) ==
    docs |-> <<JObj(<<>>)>>,
    nobuild |-> IF p = "p_bt" THEN <<"BacktickInPatternNoCompile">> ELSE <<>>, opts |-> [structNameFromTitle |-> FALSE]]
 
+\* udef: a definition of every kind that NOTHING refers to, or that only a referrer the generator maps to
+\* interface{} refers to (additionalProperties next to properties; a chain definition) -- whatever generating the
+\* definition registers (imports, helper declarations) must still be used by what is emitted
+UKinds == {"date", "time", "datetime", "ipv4", "ipv6", "ndate", "ndatetime", "nipv4", "enums", "enumu", "enummix", "arrdate", "nint",
+           "obj", "objdate", "allof", "anyof", "map", "pattern", "multnum", "objdefault"}
+UUses == {"none", "addlref", "chain", "prop", "items"}
+FmtS(f, n) == [type |-> IF n THEN <<"string", "null">> ELSE <<"string">>, format |-> f]
+UDef(k) ==
+  CASE k = "date" -> FmtS("date", FALSE) [] k = "time" -> FmtS("time", FALSE) [] k = "datetime" -> FmtS("date-time", FALSE)
+    [] k = "ipv4" -> FmtS("ipv4", FALSE) [] k = "ipv6" -> FmtS("ipv6", FALSE)
+    [] k = "ndate" -> FmtS("date", TRUE) [] k = "ndatetime" -> FmtS("date-time", TRUE) [] k = "nipv4" -> FmtS("ipv4", TRUE)
+    [] k = "enums" -> [type |-> <<"string">>, enum |-> <<JStr(<<"a">>), JStr(<<"b">>)>>]
+    [] k = "enumu" -> [enum |-> <<JStr(<<"a">>), JNum(4)>>]
+    [] k = "enummix" -> [enum |-> <<JStr(<<"a">>), JNull, JBool(TRUE)>>]
+    [] k = "arrdate" -> [type |-> <<"array">>, items |-> FmtS("date", FALSE)]
+    [] k = "nint" -> ("type" :> <<"integer", "null">>) @@ ("minimum" :> JNum(8))
+    [] k = "obj" -> Obj(<<[k |-> "v", s |-> Int_]>>, <<"v">>)
+    [] k = "objdate" -> Obj(<<[k |-> "v", s |-> FmtS("date-time", FALSE)]>>, <<>>)
+    [] k = "allof" -> [type |-> <<"object">>, allOf |-> <<Obj(<<[k |-> "p", s |-> Int_]>>, <<"p">>), Obj(<<[k |-> "q", s |-> Str_]>>, <<>>)>>]
+    [] k = "anyof" -> [type |-> <<"object">>, anyOf |-> <<Obj(<<[k |-> "p", s |-> Int_]>>, <<"p">>), Obj(<<[k |-> "q", s |-> Str_]>>, <<"q">>)>>]
+    [] k = "map" -> [type |-> <<"object">>, additionalProperties |-> [k |-> "s", s |-> FmtS("ipv4", FALSE)]]
+    [] k = "pattern" -> [type |-> <<"string">>, pattern |-> "p_a"]
+    [] k = "multnum" -> ("type" :> <<"number">>) @@ ("multipleOf" :> 2)
+    [] k = "objdefault" -> Obj(<<[k |-> "v", s |-> ("type" :> <<"array">>) @@ ("items" :> Str_) @@ ("default" :> JArr(<<JStr(<<"a">>)>>))]>>, <<>>)
+RefU == [ref |-> [k |-> "defs", n |-> "U"]]
+UDefUnit(k, use) ==
+  LET root == CASE use = "none"    -> Obj(<<[k |-> "y", s |-> Str_]>>, <<>>)
+                [] use = "addlref" -> Obj(<<[k |-> "y", s |-> Str_]>>, <<>>) @@ ("additionalProperties" :> [k |-> "s", s |-> RefU])
+                [] use = "chain"   -> Obj(<<[k |-> "x", s |-> [ref |-> [k |-> "defs", n |-> "V"]]], [k |-> "y", s |-> Str_]>>, <<>>)
+                [] use = "prop"    -> Obj(<<[k |-> "x", s |-> RefU], [k |-> "x2", s |-> RefU], [k |-> "y", s |-> Str_]>>, <<"x">>)
+                [] use = "items"   -> Obj(<<[k |-> "x", s |-> [type |-> <<"array">>, items |-> RefU]], [k |-> "y", s |-> Str_]>>, <<>>)
+  IN [prop |-> "C01", fam |-> "udef", schema |-> root,
+      defs |-> <<[k |-> "U", s |-> UDef(k)]>> \o (IF use = "chain" THEN <<[k |-> "V", s |-> RefU]>> ELSE <<>>),
+      docs |-> <<JObj(<<>>)>>,
+      \* a named float type with multipleOf does not compile (finding F-C01-named-float-multipleof)
+      nobuild |-> IF k = "multnum" THEN <<"NamedFloatMultipleOfNoCompile">> ELSE <<>>,
+      opts |-> [structNameFromTitle |-> FALSE]]
+
 Pars(f) == CASE f = "text" -> Texts \X TextPos [] f = "ext" -> Exts \X ExtPos [] f = "pat" -> Pats \X {"prop", "def"}
+             [] f = "udef" -> UKinds \X UUses
 OptSets == {"none", "extra", "models", "sized"}
 WithOpt(unit, o) ==
   [unit EXCEPT !.opts = @ @@ [extraImports |-> o = "extra", onlyModels |-> o = "models", minSizedInts |-> o = "sized"]]
-u == WithOpt(CASE fam = "text" -> TextUnit(par[1], par[2]) [] fam = "ext" -> ExtUnit(par[1], par[2]) [] fam = "pat" -> PatUnit(par[1], par[2]), opt)
+u == WithOpt(CASE fam = "text" -> TextUnit(par[1], par[2]) [] fam = "ext" -> ExtUnit(par[1], par[2]) [] fam = "pat" -> PatUnit(par[1], par[2])
+               [] fam = "udef" -> UDefUnit(par[1], par[2]), opt)
 Set == picked
 DesignOK == TRUE
 AsIsOK == TRUE
-Init == fam \in {"text", "ext", "pat"} /\ opt \in OptSets /\ par = <<>> /\ picked = FALSE
+Init == fam \in {"text", "ext", "pat", "udef"} /\ opt \in OptSets /\ par = <<>> /\ picked = FALSE
 Pick == ~picked /\ picked' = TRUE /\ par' \in Pars(fam) /\ UNCHANGED <<fam, opt>>
 Next == Pick
 Spec == Init /\ [][Next]_vars
